@@ -10,6 +10,7 @@ use common_lang_types::{
 };
 use isograph_config::ISOGRAPH_FOLDER;
 use prelude::Postfix;
+use tracing::warn;
 
 use crate::write_artifacts::unable_to_do_something_at_path_diagnostic;
 
@@ -20,7 +21,7 @@ pub fn read_files_in_folder(
     read_dir_recursive(folder)?
         .into_iter()
         .filter(|p| is_iso_literal_source_path(p))
-        .map(|path| read_file(path, current_working_directory))
+        .filter_map(|path| read_file(path, current_working_directory).transpose())
         .collect()
 }
 
@@ -38,10 +39,13 @@ pub fn is_iso_literal_source_path(p: &Path) -> bool {
         .contains("__isograph")
 }
 
+/// Returns `None` (and warns) for a file that is not valid UTF-8: such a file
+/// is skipped, in batch mode and in watch mode alike, instead of aborting the
+/// compilation or the watcher.
 pub fn read_file(
     path: PathBuf,
     current_working_directory: CurrentWorkingDirectory,
-) -> LocationFreeDiagnosticResult<(RelativePathToSourceFile, String)> {
+) -> LocationFreeDiagnosticResult<Option<(RelativePathToSourceFile, String)>> {
     // N.B. we have previously ensured that path is a file
     let contents = std::fs::read(&path).map_err(|e| {
         unable_to_do_something_at_path_diagnostic(&path, &e.to_string(), "read file")
@@ -50,13 +54,13 @@ pub fn read_file(
     let relative_path =
         relative_path_from_absolute_and_working_directory(current_working_directory, &path);
 
-    let contents = std::str::from_utf8(&contents)
-        .map_err(|e| {
-            unable_to_do_something_at_path_diagnostic(&path, &e.to_string(), "convert file to utf8")
-        })?
-        .to_owned();
-
-    (relative_path, contents).wrap_ok()
+    match String::from_utf8(contents) {
+        Ok(contents) => (relative_path, contents).wrap_some().wrap_ok(),
+        Err(e) => {
+            warn!("Skipping file {path:?}, which is not valid UTF-8: {e}");
+            Ok(None)
+        }
+    }
 }
 
 fn read_dir_recursive(root_js_path: &Path) -> LocationFreeDiagnosticResult<Vec<PathBuf>> {
